@@ -95,7 +95,9 @@ CLAIMED = {
              "implementation through the rule pipeline against the table model.",
         note="Trusted: Lean kernel, standard axioms. The theorems are about the syllable-level functions; where the interpreter applies them is the scan "
              "loop's business; its defect D5 (a long target run was re-entered after a length-setting substitution) was found by this check "
-             "and repaired by a fix: commit (ead3730). Alphas on suprasegmentals are modelled but only binary modifiers are "
+             "and repaired by a fix: commit (ead3730); where the search resumes after a resized run is now a theorem (cursor_after_resized_run). End to "
+             "end (Props/C05Scan, induction over the whole scan of the interpreter port, any environment): a rule `X > [±long, ±overlong, features]` never "
+             "creates, removes or empties a syllable and never changes a stress or a tone (length_subrule_keeps_prosody). Alphas on suprasegmentals are modelled but only binary modifiers are "
              "covered by the theorems.",
         technique="Lean 4 theorems over ported syll.rs + exhaustive table-model evaluation on impl",
         design="§4 C05"),
